@@ -273,3 +273,37 @@ M("C06", "client-seed-local-not-carried", CL, None, None, "C06.R5", edits=[
 M("C06", "fbm-stripped-seed", C2, FBM, "        return cls.from_aes_rand(bytes(metadata.aes_rand).rstrip(b\"\\x00\"), iv=iv)\n", "C06.R5")
 T("C06", "twin-enc-loose-precheck", C2, "    return cipher.encrypt(metadata.dumps())\n",
   "    data = metadata.dumps()\n    if len(data) > public_key.size_in_bytes():\n        raise ValueError(\"Plaintext is too long.\")\n    return cipher.encrypt(data)\n")
+
+# ================================================================================================ third round
+SINGLE_EXIT = ("    error = None\n    metadata = None\n    pt = PKCS1_v1_5.new(private_key).decrypt(encrypted_metadata, None)\n    if not pt:\n        error = \"Failed to RSA decrypt metadata\"\n"
+               "    else:\n        try:\n            metadata = BeaconMetadata(pt)\n        except EOFError:\n            error = \"Failed to parse decrypted metadata, not enough data\"\n"
+               "        else:\n            if metadata.magic != 0xBEEF:\n                error = f\"Invalid metadata magic, got {metadata.magic:08x}, expected 0xbeef\"\n"
+               "    if error is not None:\n        raise ValueError(error)\n    return metadata\n")
+# a single exit point: the failure is collected in a message variable and raised once at the end
+T("C06", "twin-dec-single-exit-error-variable", C2, DEC, SINGLE_EXIT)
+M("C06", "dec-single-exit-magic-not-collected", C2, DEC, SINGLE_EXIT.replace("                error = f\"Invalid", "                logger.warning(f\"Invalid").replace("expected 0xbeef\"\n", "expected 0xbeef\")\n"), "C06.R2")
+M("C06", "dec-single-exit-sentinel-not-collected", C2, DEC, SINGLE_EXIT.replace("    if not pt:\n        error = \"Failed to RSA decrypt metadata\"\n    else:\n", "    if pt is None:\n        error = \"Failed to RSA decrypt metadata\"\n    else:\n"), "C06.R6")
+M("C06", "dec-single-exit-wrong-class", C2, DEC, SINGLE_EXIT.replace("raise ValueError(error)", "raise LookupError(error)"), "C06.R2")
+# the size from the field sizes of the fixed part
+T("C06", "twin-enc-size-from-field-sizes", C2, "    metadata.size = len(metadata) - 8\n", "    metadata.size = sum((16, 2, 2, 4, 4, 2, 1, 1, 1, 2, 4, 4, 4, 4)) + len(metadata.info)\n")
+M("C06", "enc-size-from-field-sizes-counts-size-field", C2, "    metadata.size = len(metadata) - 8\n", "    metadata.size = sum((4, 16, 2, 2, 4, 4, 2, 1, 1, 1, 2, 4, 4, 4, 4)) + len(metadata.info)\n", "C06.R1")
+# NamedTuple._make, memoryview slices
+T("C06", "twin-far-make", C2, FAR, "        return cls._make((*derive_aes_hmac_keys(aes_rand), iv))\n")
+M("C06", "far-make-misplaced-hmac", C2, FAR, "        aes_key, hmac_key = derive_aes_hmac_keys(aes_rand)\n        return cls._make((aes_key, iv, hmac_key))\n", "C06.R5")
+T("C06", "twin-derive-memoryview", C2, DER, "    view = memoryview(hashlib.sha256(aes_random).digest())\n    return bytes(view[:16]), bytes(view[16:])\n")
+M("C06", "derive-memoryview-short-half", C2, DER, "    view = memoryview(hashlib.sha256(aes_random).digest())\n    return bytes(view[0:16]), bytes(view[16:31])\n", "C06.R5")
+T("C06", "twin-dec-module-sentinel-none", C2, DEC, dec("    if not pt:\n" + RAISE_DEC, head="    pt = PKCS1_v1_5.new(private_key).decrypt(encrypted_metadata, _SENTINEL)\n") + "\n\n_SENTINEL = None\n")
+# NOTE (engine, csverif/effects.py): the same single-exit shape with the exception *object* kept in the local
+# (`error = ValueError(..)` ... `raise error`) is discharged by the C06 rules of this module, but the escape analysis behind
+# C06.R6 reports `raise error::error` (class of a raised local not resolved) - not added as a twin until that is fixed.
+# comparisons of the "any other magic" symbol are decided by interval / counting lemmas (rules/c06.py::_cmp_other), never by
+# trying values: an ordering test that lets other magics through is caught; two *correlated* ordering tests that together
+# are `!=` are not combined (undecided, silent); a range test that happens to include 0xBEEF is caught
+MAGIC_TAIL = "        raise ValueError(f\"Invalid metadata magic, got {metadata.magic:08x}, expected 0xbeef\")\n    return metadata\n"
+M("C06", "dec-magic-only-lower-bound", C2, DEC, dec("    if not pt:\n" + RAISE_DEC, magic="    if metadata.magic < 0xBEEF:\n" + MAGIC_TAIL), "C06.R2")
+M("C06", "dec-magic-only-lower-bound-mirrored", C2, DEC, dec("    if not pt:\n" + RAISE_DEC, magic="    if 0xBEEF > metadata.magic:\n" + MAGIC_TAIL), "C06.R2")
+M("C06", "dec-magic-membership-two-values", C2, DEC, dec("    if not pt:\n" + RAISE_DEC, magic="    if metadata.magic not in (0xBEEF, 0xBEEE):\n" + MAGIC_TAIL), "C06.R2")
+M("C06", "dec-magic-masked-high-byte", C2, DEC, dec("    if not pt:\n" + RAISE_DEC, magic="    if metadata.magic & 0xFF00 != 0xBE00:\n" + MAGIC_TAIL), "C06.R2")
+T("C06", "twin-dec-magic-two-ordering-tests", C2, DEC, dec("    if not pt:\n" + RAISE_DEC, magic="    if metadata.magic < 0xBEEF or metadata.magic > 0xBEEF:\n" + MAGIC_TAIL))
+T("C06", "twin-dec-magic-full-mask", C2, DEC, dec("    if not pt:\n" + RAISE_DEC, magic="    if metadata.magic & 0xFFFFFFFF != 0xBEEF:\n" + MAGIC_TAIL))
+T("C06", "twin-dec-magic-ne-and-range-check", C2, DEC, dec("    if not pt:\n" + RAISE_DEC, magic="    if metadata.magic < 0 or metadata.magic != 0xBEEF:\n" + MAGIC_TAIL))
